@@ -93,7 +93,7 @@ def mutate(rng, s):
 
 
 def hex_cut_family(rng):
-    """long texts around the `cut long hex string` branch (class hex_cut and its valid neighbours)"""
+    """long texts around the `cut long hex string` branch (the former class hex_cut, repaired by 8dd49c7, and its valid neighbours)"""
     n = rng.choice([14, 15, 16, 17, 18, 24])
     h = digits(rng, n, n, rng.choice([HEXL, "0", "0f"]))
     pre = rng.choice([".0x", "0x.", "0x", ".0x.", "0x..", "0xl", "0xp", ".00x", ".x0x", "0x0x", "1.0x", "0xu", ".5e0x"])
